@@ -16,6 +16,17 @@
 //!   (`fact_cache().query_prefix(name, [])`) compared with the model after every command and a full
 //!   scan + point queries at the end.
 //!
+//! * **multi-command actions**: on top of every committed prior store over 3 keys (each key never
+//!   created / committed / created and deleted again by earlier single-command actions), every valid
+//!   sequence of create/update/delete commands published by ONE action (quick: ≤ 2 steps on all 27
+//!   priors and exactly 3 on the 8 priors without committed deletions; thorough: wider, see
+//!   `tx_bounds`), so that all of them and the observations between them run on the same
+//!   uncommitted perspective over the committed fact index: after every step the
+//!   same action scans the schema (query kinds + `map`), after the last step it evaluates every
+//!   literal shape bound to the three keys, one never-stored key and the key prefixes in use as
+//!   `query`, `exists`, `count_up_to/at_least/at_most/exactly` 1..3 (command policy and action
+//!   context) and as `map`; after the commit the raw listing and a session scan are compared.
+//!
 //! Oracle: the typed model store in `Model` (ordering from the statement), nothing else.
 
 use std::collections::{BTreeMap, BTreeSet};
@@ -25,7 +36,7 @@ use aranya_runtime::VmEffect;
 use mcx::{json, rayon::prelude::*, Args, Level, Report, Value as J};
 
 use crate::{
-    schema::{schemas, shapes, Atom, Schema, Shape, Ty, LIMITS},
+    schema::{schemas, shapes, tx_literals, tx_params, Atom, Schema, Shape, TxLit, Ty, LIMITS, TX_QKEYS, TX_QPREFIXES, TX_STEPS},
     sys::{decode_fact_struct, field, Graph, Sys},
     util::MinCases,
 };
@@ -302,12 +313,15 @@ impl Op {
 enum Ctx {
     Ephemeral,
     OnGraph,
+    /// inside the action that published the last commands of the history (uncommitted perspective)
+    InTx,
 }
 impl Ctx {
     fn name(self) -> &'static str {
         match self {
             Ctx::Ephemeral => "session",
             Ctx::OnGraph => "on-graph",
+            Ctx::InTx => "same action, uncommitted",
         }
     }
 }
@@ -321,11 +335,13 @@ struct Worker<'a> {
     seed: u64,
     tag: i64,
     all_literals: bool,
+    /// index in the reported history at which the commands of one multi-command action begin
+    tx_from: Option<usize>,
 }
 
 impl<'a> Worker<'a> {
     fn new(parent: &Report, machine: &'a Machine, seed: u64) -> Self {
-        Worker { sys: Sys::new(machine, seed), rep: parent.worker(), bad: MinCases::default(), states: BTreeSet::new(), machine, seed, tag: 0, all_literals: false }
+        Worker { sys: Sys::new(machine, seed), rep: parent.worker(), bad: MinCases::default(), states: BTreeSet::new(), machine, seed, tag: 0, all_literals: false, tx_from: None }
     }
 
     /// The storage provider keeps every graph; start over now and then to bound memory.
@@ -351,12 +367,17 @@ impl<'a> Worker<'a> {
             }
         }
         let hs: Vec<String> = hist.iter().map(Op::show).collect();
+        let hshow = match self.tx_from {
+            Some(n) if n <= hs.len() => format!("{}{}in ONE action: {}", hs[..n].join(" ; "), if n > 0 { " ; then " } else { "" }, hs[n..].join(" ; ")),
+            _ => hs.join(" ; "),
+        };
         let label = match lit {
-            Some((l, c, _)) => format!("history {} ; literal {} ; {}", hs.join(" ; "), l.show(s), c.name()),
-            None => format!("history {}", hs.join(" ; ")),
+            Some((l, c, _)) => format!("history {hshow} ; literal {} ; {}", l.show(s), c.name()),
+            None => format!("history {hshow}"),
         };
         let replay = json!({
             "schema": s.name,
+            "tx_from": self.tx_from,
             "history": hist.iter().map(op_json).collect::<Vec<_>>(),
             "literal": lit.map(|(l, c, kind)| json!({"shape": [l.shape.bound_keys, l.shape.val_mask], "keys": l.keys.iter().map(atom_json).collect::<Vec<_>>(), "vals": l.vals.iter().map(|v| v.as_ref().map(atom_json)).collect::<Vec<_>>(), "context": c.name(), "kind": kind})),
         });
@@ -478,22 +499,29 @@ impl<'a> Worker<'a> {
                 }
                 if let Some(x) = err {
                     self.fail(s, "map emits unexpected effects".to_string(), hist, Some((l, ctx, "map")), x);
-                } else if got != want {
-                    let show = |v: &[Fact]| v.iter().map(|(k, v)| show_fact(k, v)).collect::<Vec<_>>().join(" ");
-                    let mut a = got.clone();
-                    a.sort();
-                    let class = if a == want {
-                        "map visits the matching facts out of key order"
-                    } else if got.iter().any(|f| !want.contains(f)) && l.vals.iter().any(Option::is_some) && got.iter().all(|(k, _)| k[..l.keys.len()] == l.keys[..]) {
-                        "map visits facts that do not match the bound value fields"
-                    } else {
-                        "map visits the wrong facts"
-                    };
-                    self.fail(s, class.to_string(), hist, Some((l, ctx, "map")), format!("store {}; visited [{}], model [{}]", m.show(), show(&got), show(&want)));
                 } else {
-                    self.rep.outcome(&format!("map visited {}", want.len().min(3)), 1);
+                    self.compare_map(s, &got, &want, m, hist, l, ctx);
                 }
             }
+        }
+    }
+
+    #[allow(clippy::too_many_arguments)]
+    fn compare_map(&mut self, s: &Schema, got: &[Fact], want: &[Fact], m: &Model, hist: &[Op], l: &Lit, ctx: Ctx) {
+        if got != want {
+            let show = |v: &[Fact]| v.iter().map(|(k, v)| show_fact(k, v)).collect::<Vec<_>>().join(" ");
+            let mut a = got.to_vec();
+            a.sort();
+            let class = if a == want {
+                "map visits the matching facts out of key order"
+            } else if got.iter().any(|f| !want.contains(f)) && l.vals.iter().any(Option::is_some) && got.iter().all(|(k, _)| k[..l.keys.len()] == l.keys[..]) {
+                "map visits facts that do not match the bound value fields"
+            } else {
+                "map visits the wrong facts"
+            };
+            self.fail(s, class.to_string(), hist, Some((l, ctx, "map")), format!("store {}; visited [{}], model [{}]", m.show(), show(got), show(want)));
+        } else {
+            self.rep.outcome(&format!("map visited {}", want.len().min(3)), 1);
         }
     }
 
@@ -758,10 +786,443 @@ fn cud_case(w: &mut Worker, si: usize, s: &Schema, hist: &[Op], end_lits: &[Lit]
 }
 
 // ---------------------------------------------------------------------------------------------
+// multi-command actions (several fact changes and observations in one uncommitted perspective)
+
+/// What the in-action observation binds: full keys, proper prefixes per length, two value tuples.
+#[derive(Clone, Debug)]
+struct TxQuery {
+    /// the keys the steps work on, in model key order
+    picks: Vec<Vec<Atom>>,
+    qkeys: Vec<Vec<Atom>>,
+    /// `qprefixes[b-1]` = the prefixes of length b
+    qprefixes: Vec<Vec<Vec<Atom>>>,
+    x: Vec<Atom>,
+    y: Vec<Atom>,
+}
+
+fn tx_query(s: &Schema, a: &Alphabet, npicks: usize) -> TxQuery {
+    let (mut picks, spare): (Vec<Vec<Atom>>, Vec<Atom>);
+    let mut qprefixes: Vec<Vec<Vec<Atom>>> = Vec::new();
+    if s.keys.len() == 1 {
+        let f = &a.keys[0];
+        picks = vec![vec![f[0].clone()], vec![f[1].clone()], vec![f[3].clone()], vec![f[4].clone()]];
+        spare = vec![f[2].clone()];
+    } else {
+        // two first components, three second components: the picks share key prefixes
+        let (f, g) = (&a.keys[0], &a.keys[1]);
+        let k = |i: usize, j: usize| vec![f[i].clone(), g[j].clone()];
+        picks = vec![k(1, 1), k(1, 3), k(2, 1), k(2, 3)];
+        spare = k(1, 2);
+        qprefixes.push(vec![vec![f[1].clone()], vec![f[2].clone()]]);
+        if s.keys.len() != 2 || TX_QPREFIXES != 2 {
+            mcx::machinery_error("C29: tx_query handles schemas with one or two key fields");
+        }
+    }
+    picks.truncate(npicks);
+    let mut sorted = picks.clone();
+    sorted.sort();
+    if sorted != picks {
+        mcx::machinery_error("C29: tx picks are not in model key order");
+    }
+    let mut qkeys = picks.clone();
+    if qkeys.len() < TX_QKEYS {
+        qkeys.push(spare);
+    }
+    while qkeys.len() < TX_QKEYS {
+        qkeys.push(qkeys[0].clone());
+    }
+    TxQuery { picks, qkeys, qprefixes, x: a.vals[0].clone(), y: a.vals[1].clone() }
+}
+
+impl TxQuery {
+    fn lit(&self, s: &Schema, l: &TxLit) -> Lit {
+        let b = l.shape.bound_keys;
+        let keys = if b == 0 {
+            vec![]
+        } else if b == s.keys.len() {
+            self.qkeys[l.key_slot].clone()
+        } else {
+            self.qprefixes[b - 1][l.key_slot].clone()
+        };
+        let t = if l.variant == 0 { &self.x } else { &self.y };
+        let vals = (0..s.vals.len()).map(|j| if l.shape.val_bound(j) { Some(t[j].clone()) } else { None }).collect();
+        Lit { shape: l.shape, keys, vals }
+    }
+}
+
+/// (op code, key, old/created values, new values) of a step, as `txstep_<schema>` takes them.
+fn tx_slot(op: &Op, m: &Model, dflt: &[Atom]) -> (i64, Vec<Atom>, Vec<Atom>, Vec<Atom>) {
+    let d = || dflt.to_vec();
+    match op {
+        Op::Mk(k, v) => (1, k.clone(), v.clone(), d()),
+        Op::Del(k) => (2, k.clone(), d(), d()),
+        Op::Upd(0, k, w) => (3, k.clone(), m.facts[k].clone(), w.clone()),
+        Op::Upd(1, k, w) => (4, k.clone(), d(), w.clone()),
+        Op::Upd(2, k, w) => (5, k.clone(), d(), w.clone()),
+        Op::Upd(_, k, w) => (6, k.clone(), m.facts[k].clone(), w.clone()),
+        Op::CrUp(k, v, w) => (7, k.clone(), v.clone(), w.clone()),
+        Op::CrDel(k, v) => (8, k.clone(), v.clone(), d()),
+        Op::DelCr(k, w) => (9, k.clone(), d(), w.clone()),
+        Op::UpDel(k, w) => (10, k.clone(), d(), w.clone()),
+        Op::Cr2(..) => mcx::machinery_error("C29: create;create is not a step of a multi-command action"),
+    }
+}
+
+/// The steps one action may publish in store `m`: create an absent pick (second value tuple, so
+/// that a re-created fact differs from the committed one), delete a present one, update it to the
+/// next value tuple; `full` adds the other update forms and the two-statement finish blocks.
+fn tx_ops(s: &Schema, a: &Alphabet, picks: &[Vec<Atom>], m: &Model, full: bool) -> Vec<Op> {
+    let mut ops = Vec::new();
+    for k in picks {
+        match m.facts.get(k) {
+            None => {
+                ops.push(Op::Mk(k.clone(), a.vals[1].clone()));
+                if full {
+                    ops.push(Op::CrUp(k.clone(), a.vals[1].clone(), a.vals[0].clone()));
+                    ops.push(Op::CrDel(k.clone(), a.vals[1].clone()));
+                }
+            }
+            Some(cur) => {
+                let at = a.vals.iter().position(|t| t == cur).unwrap_or(0);
+                let next = a.vals[(at + 1) % a.vals.len()].clone();
+                ops.push(Op::Del(k.clone()));
+                ops.push(Op::Upd(0, k.clone(), next.clone()));
+                if full {
+                    for kind in 1..if s.vals.len() > 1 { 4 } else { 3 } {
+                        ops.push(Op::Upd(kind, k.clone(), next.clone()));
+                    }
+                    ops.push(Op::DelCr(k.clone(), next.clone()));
+                    ops.push(Op::UpDel(k.clone(), next.clone()));
+                }
+            }
+        }
+    }
+    ops
+}
+
+/// Every valid step sequence of length min_len..=depth from store `m0`.
+fn tx_sequences(s: &Schema, a: &Alphabet, picks: &[Vec<Atom>], m0: &Model, min_len: usize, depth: usize, full: bool) -> Vec<Vec<Op>> {
+    let mut out = Vec::new();
+    let mut frontier: Vec<(Vec<Op>, Model)> = vec![(vec![], m0.clone())];
+    for len in 1..=depth {
+        let mut next = Vec::new();
+        for (h, m) in &frontier {
+            for op in tx_ops(s, a, picks, m, full) {
+                let mut m2 = m.clone();
+                op.apply(&mut m2);
+                let mut h2 = h.clone();
+                h2.push(op);
+                if len >= min_len {
+                    out.push(h2.clone());
+                }
+                next.push((h2, m2));
+            }
+        }
+        frontier = next;
+    }
+    out
+}
+
+/// Committed priors: every pick never created (0), committed (1), or — with `states` = 3 — created
+/// and deleted again (2); one command per action, creations in descending key order, then the
+/// deletions.
+fn tx_priors(a: &Alphabet, picks: &[Vec<Atom>], states: usize) -> Vec<Vec<Op>> {
+    let mut out = Vec::new();
+    let n = picks.len();
+    for code in 0..states.pow(n as u32) {
+        let st: Vec<usize> = (0..n).map(|i| code / states.pow(i as u32) % states).collect();
+        let mut h = Vec::new();
+        for i in (0..n).rev() {
+            if st[i] != 0 {
+                h.push(Op::Mk(picks[i].clone(), a.vals[0].clone()));
+            }
+        }
+        for i in 0..n {
+            if st[i] == 2 {
+                h.push(Op::Del(picks[i].clone()));
+            }
+        }
+        out.push(h);
+    }
+    out
+}
+
+#[derive(Clone, Copy, PartialEq, Eq)]
+enum KeyLife {
+    /// as the committed prior left it
+    Prior,
+    /// created by an earlier step of this action
+    Own,
+    /// deleted by an earlier step of this action
+    Deleted,
+}
+
+impl<'a> Worker<'a> {
+    /// Coverage triggers of one step sequence (measured on the model, before anything runs).
+    fn tx_coverage(&mut self, m0: &Model, steps: &[Op]) {
+        let mut life: BTreeMap<Vec<Atom>, KeyLife> = BTreeMap::new();
+        let mut recreated: BTreeSet<Vec<Atom>> = BTreeSet::new();
+        let mut m = m0.clone();
+        for op in steps {
+            let k = op_keys(op)[0].clone();
+            let before = life.get(&k).copied().unwrap_or(KeyLife::Prior);
+            let (creates, updates, deletes, creates_after) = match op {
+                Op::Mk(..) => (true, false, false, false),
+                Op::Upd(..) => (false, true, false, false),
+                Op::Del(..) => (false, false, true, false),
+                Op::CrUp(..) => (true, true, false, false),
+                Op::CrDel(..) => (true, false, true, false),
+                Op::DelCr(..) => (false, false, true, true),
+                Op::UpDel(..) => (false, true, true, false),
+                Op::Cr2(..) => (true, false, false, false),
+            };
+            let mut cur = before;
+            if creates {
+                if cur == KeyLife::Deleted {
+                    self.rep.count("tx_recreate_after_delete_in_same_action", 1);
+                    recreated.insert(k.clone());
+                }
+                cur = KeyLife::Own;
+            }
+            if updates {
+                if cur == KeyLife::Prior {
+                    self.rep.count("tx_update_of_committed_fact", 1);
+                } else {
+                    self.rep.count("tx_update_of_own_created_fact", 1);
+                    if recreated.contains(&k) {
+                        self.rep.count("tx_update_after_delete_and_recreate_in_same_action", 1);
+                    }
+                }
+            }
+            if deletes {
+                if cur == KeyLife::Prior {
+                    self.rep.count("tx_delete_of_committed_fact", 1);
+                } else {
+                    self.rep.count("tx_delete_of_own_created_fact", 1);
+                }
+                cur = KeyLife::Deleted;
+            }
+            if creates_after {
+                self.rep.count("tx_recreate_after_delete_in_same_action", 1);
+                recreated.insert(k.clone());
+                cur = KeyLife::Own;
+            }
+            life.insert(k.clone(), cur);
+            op.apply(&mut m);
+            if cur == KeyLife::Deleted && !m.facts.is_empty() {
+                let below = m.facts.keys().filter(|x| **x < k).count();
+                let place = if below == 0 {
+                    "before"
+                } else if below == m.facts.len() {
+                    "after"
+                } else {
+                    "between"
+                };
+                self.rep.count(&format!("tx_deleted_key_sorts_{place}_remaining_facts"), 1);
+            }
+        }
+    }
+
+    /// One multi-command action on top of the committed history `prior`.
+    fn tx_case(&mut self, si: usize, s: &Schema, prior: &[Op], steps: &[Op], q: &TxQuery, lits: &[TxLit]) {
+        if steps.is_empty() || steps.len() > TX_STEPS {
+            mcx::machinery_error("C29: a multi-command action has 1..=TX_STEPS steps");
+        }
+        self.tx_from = None;
+        let Some((mut g, m0)) = build(self, si, s, prior) else { return };
+        self.rep.count("tx_actions", 1);
+        if !m0.facts.is_empty() {
+            self.rep.count("tx_actions_on_nonempty_committed_store", 1);
+        }
+        if steps.len() >= 2 {
+            self.rep.count("tx_actions_with_2_or_more_fact_changing_commands", 1);
+        }
+        self.tx_coverage(&m0, steps);
+        self.tx_from = Some(prior.len());
+        let mut hist: Vec<Op> = prior.to_vec();
+        hist.extend(steps.iter().cloned());
+        let np = prior.len();
+
+        // ---- arguments, and the model after every step
+        let mut named: BTreeMap<String, Value> = BTreeMap::new();
+        let mut models: Vec<Model> = Vec::new();
+        let mut codes: Vec<(i64, i64)> = Vec::new();
+        let mut m = m0.clone();
+        for (i, op) in steps.iter().enumerate() {
+            if !op.valid(&m) {
+                mcx::machinery_error("C29: multi-command action with an invalid precondition was generated");
+            }
+            self.tag += 1;
+            let (code, k, v, w) = tx_slot(op, &m, &q.x);
+            named.insert(format!("t{i}"), Value::Int(self.tag));
+            named.insert(format!("o{i}"), Value::Int(code));
+            named.insert(format!("b{i}"), Value::Int(if i + 1 == steps.len() { 2 } else { 1 }));
+            for (pre, atoms, fields) in [("k", &k, &s.keys), ("v", &v, &s.vals), ("w", &w, &s.vals)] {
+                for (a, (n, _)) in atoms.iter().zip(fields.iter()) {
+                    named.insert(format!("{pre}{i}_{n}"), a.to_value());
+                }
+            }
+            codes.push((code, self.tag));
+            op.apply(&mut m);
+            models.push(m.clone());
+            self.rep.count("transitions", 1);
+            self.rep.count(&format!("op {}", op.kind()), 1);
+        }
+        for (slot, k) in q.qkeys.iter().enumerate() {
+            for (a, (n, _)) in k.iter().zip(s.keys.iter()) {
+                named.insert(format!("qk{slot}_{n}"), a.to_value());
+            }
+        }
+        for (b1, ps) in q.qprefixes.iter().enumerate() {
+            for (slot, pfx) in ps.iter().enumerate() {
+                for (a, (n, _)) in pfx.iter().zip(s.keys.iter()) {
+                    named.insert(format!("qp{}x{slot}_{n}", b1 + 1), a.to_value());
+                }
+            }
+        }
+        for (var, t) in [("x", &q.x), ("y", &q.y)] {
+            for (a, (n, _)) in t.iter().zip(s.vals.iter()) {
+                named.insert(format!("{var}_{n}"), a.to_value());
+            }
+        }
+        let args: Vec<Value> = tx_params(s)
+            .iter()
+            .map(|(n, t)| {
+                named.get(n).cloned().unwrap_or_else(|| match t {
+                    // an unused step
+                    Ty::Int => Value::Int(0),
+                    Ty::Bool => Value::Bool(false),
+                    Ty::Str => Atom::Str(String::new()).to_value(),
+                    Ty::Color => Atom::color(0).to_value(),
+                    Ty::Id => Atom::id(0, 0).to_value(),
+                })
+            })
+            .collect();
+
+        // ---- run the action: everything below was produced inside one uncommitted perspective
+        let eff = match self.sys.action(&mut g, &format!("tx_{}", s.lower()), args) {
+            Err(e) => {
+                self.rep.outcome("multi-command action rejected", 1);
+                self.fail(s, "multi-command action with valid preconditions is rejected".to_string(), &hist, None, format!("committed store: {}; error: {e}", m0.show()));
+                self.tx_from = None;
+                self.sys.drop_graph(g);
+                return;
+            }
+            Ok(eff) => eff,
+        };
+        let tagpt = |e: &VmEffect| -> Option<(i64, i64)> {
+            match (field(e, "tag").ok()?, field(e, "pt").ok()?) {
+                (Value::Int(t), Value::Int(p)) => Some((*t, *p)),
+                _ => None,
+            }
+        };
+        let mut cur = 0usize;
+        let mut broken: Option<(usize, String)> = None;
+        'steps: for (i, op) in steps.iter().enumerate() {
+            let h = &hist[..np + i + 1];
+            let (code, tag) = codes[i];
+            let done = eff.get(cur).is_some_and(|e| e.name.as_str() == "Done" && field(e, "op").ok() == Some(&Value::Int(code)) && field(e, "tag").ok() == Some(&Value::Int(tag)));
+            if !done {
+                broken = Some((i, format!("{}: unexpected effects", op.kind())));
+                break 'steps;
+            }
+            cur += 1;
+            let m = &models[i];
+            self.states.insert((si, m.clone()));
+            let full = i + 1 == steps.len();
+            for (li, tl) in lits.iter().enumerate() {
+                if !full && !tl.light {
+                    continue;
+                }
+                let l = q.lit(s, tl);
+                let want = m.matches(&l);
+                let n = want.len() as i64;
+                self.rep.count("tx_literals_evaluated", 1);
+                self.rep.count("query_runs", 1);
+                self.rep.count("map_runs", 1);
+                if !l.keys.is_empty() && l.keys.len() < s.keys.len() {
+                    self.rep.count("prefix_queries_some_keys_bound", 1);
+                    if want.len() >= 2 {
+                        self.rep.count("tx_prefix_queries_matching_2_or_more", 1);
+                    }
+                }
+                if l.vals.iter().any(Option::is_some) {
+                    self.rep.count("queries_with_bound_values", 1);
+                }
+                if want.len() >= 2 {
+                    self.rep.count("map_visiting_2_or_more", 1);
+                }
+                // query kinds
+                let ok = eff.get(cur).is_some_and(|e| e.name.as_str() == format!("Obs{}", s.name) && tagpt(e) == Some((tag, 2 * li as i64)));
+                if !ok {
+                    broken = Some((i, "query command emits unexpected effects".to_string()));
+                    break 'steps;
+                }
+                self.compare_obs(s, &eff[cur], &want, n, h, &l, Ctx::InTx);
+                cur += 1;
+                // map
+                let mut got: Vec<Fact> = Vec::new();
+                while let Some(e) = eff.get(cur) {
+                    if e.name.as_str() != format!("Visit{}", s.name) || tagpt(e) != Some((tag, 2 * li as i64 + 1)) {
+                        break;
+                    }
+                    match field(e, "f").and_then(|v| decode_fact_struct(s, v)) {
+                        Ok(f) => got.push(f),
+                        Err(x) => {
+                            self.fail(s, "map emits unexpected effects".to_string(), h, Some((&l, Ctx::InTx, "map")), x);
+                            broken = Some((i, String::new()));
+                            break 'steps;
+                        }
+                    }
+                    cur += 1;
+                }
+                self.compare_map(s, &got, &want, m, h, &l, Ctx::InTx);
+            }
+        }
+        match broken {
+            Some((i, class)) if !class.is_empty() => {
+                let names: Vec<String> = eff.iter().skip(cur.saturating_sub(1)).take(4).map(|e| format!("{e:?}")).collect();
+                self.fail(s, class, &hist[..np + i + 1], None, format!("effect #{cur} of the action is not the expected one; effects from #{}: {}", cur.saturating_sub(1), names.join(" | ")));
+            }
+            Some(_) => {}
+            None if cur != eff.len() => {
+                self.fail(s, "multi-command action emits extra effects".to_string(), &hist, None, format!("{} effects expected, {} emitted; first extra: {:?}", cur, eff.len(), eff[cur]));
+            }
+            None => {
+                // ---- committed: raw listing and a scan in a session
+                self.rep.outcome(&format!("multi-command action of {} steps committed", steps.len()), 1);
+                let m = models[steps.len() - 1].clone();
+                self.check_listing(s, &g, &m, &hist, "the multi-command action");
+                if let Some(tl) = lits.iter().find(|l| l.light) {
+                    let l = q.lit(s, tl);
+                    self.observe(s, &mut g, &m, &hist, &l, Ctx::Ephemeral);
+                }
+            }
+        }
+        self.tx_from = None;
+        self.sys.drop_graph(g);
+    }
+}
+
+// ---------------------------------------------------------------------------------------------
 
 enum Case {
     Set { ui: usize, facts: Vec<Fact>, on_graph: bool },
     Cud { si: usize, hist: Vec<Op> },
+    Tx { ci: usize, prior: Vec<Op>, steps: Vec<Op> },
+}
+
+/// One bound of the multi-command-action family.
+struct TxCfg {
+    si: usize,
+    q: TxQuery,
+    lits: Vec<TxLit>,
+    /// steps per action: min_len..=depth
+    min_len: usize,
+    depth: usize,
+    /// per key: 2 = never created / committed; 3 = also created and deleted again
+    prior_states: usize,
+    full_alphabet: bool,
 }
 
 fn subsets_up_to(n: usize, k: usize) -> Vec<Vec<usize>> {
@@ -820,11 +1281,36 @@ pub fn run(args: &Args) {
         }
     }
 
+    // multi-command actions: (picks, steps per action, full step alphabet?)
+    let replaying = args.replay.is_some();
+    // (keys, prior states per key, min steps, max steps, full step alphabet?); the bounds of one tier
+    // never overlap (a sequence length is explored on the widest prior set that has it)
+    let tx_bounds: Vec<(usize, usize, usize, usize, bool)> = if replaying {
+        vec![(3, 3, 1, TX_STEPS, true), (4, 3, 1, TX_STEPS, true)]
+    } else if thorough {
+        vec![(3, 3, 1, 3, true), (4, 3, 1, 3, false), (3, 3, 4, 4, false)]
+    } else {
+        vec![(3, 3, 1, 2, false), (3, 2, 3, 3, false)]
+    };
+    let mut txcfgs: Vec<TxCfg> = Vec::new();
+    for &(npicks, prior_states, min_len, depth, full_alphabet) in &tx_bounds {
+        for (si, s) in ss.iter().enumerate() {
+            txcfgs.push(TxCfg { si, q: tx_query(s, &unis[si].alpha, npicks), lits: tx_literals(s), min_len, depth, prior_states, full_alphabet });
+        }
+    }
+
     if let Some(r) = crate::util::load_replay(args) {
         let si = ss.iter().position(|s| Some(s.name) == r["schema"].as_str()).unwrap_or_else(|| mcx::machinery_error("C29 replay: unknown schema"));
         let hist: Vec<Op> = r["history"].as_array().map(|a| a.iter().map(op_from).collect()).unwrap_or_default();
         let mut w = Worker::new(&rep, &machine, args.seed);
-        if let Some((mut g, m)) = build(&mut w, si, &ss[si], &hist) {
+        if let Some(n) = r["tx_from"].as_u64().map(|n| n as usize).filter(|n| *n < hist.len()) {
+            // a multi-command action: the whole action with all its observations is re-run
+            let c = txcfgs
+                .iter()
+                .find(|c| c.si == si && hist.iter().flat_map(op_keys).all(|k| c.q.picks.contains(k)))
+                .unwrap_or_else(|| mcx::machinery_error("C29 replay: the keys of the history are not those of a multi-command bound"));
+            w.tx_case(si, &ss[si], &hist[..n], &hist[n..], &c.q, &c.lits);
+        } else if let Some((mut g, m)) = build(&mut w, si, &ss[si], &hist) {
             let l = &r["literal"];
             if !l.is_null() {
                 let shape = Shape { bound_keys: l["shape"][0].as_u64().unwrap_or(0) as usize, val_mask: l["shape"][1].as_u64().map(|m| m as u32) };
@@ -880,6 +1366,26 @@ pub fn run(args: &Args) {
             cases.push(Case::Cud { si, hist });
         }
     }
+    let mut tx_case_counts = Vec::new();
+    for (ci, c) in txcfgs.iter().enumerate() {
+        let (s, a) = (&ss[c.si], &unis[c.si].alpha);
+        let before = cases.len();
+        for prior in tx_priors(a, &c.q.picks, c.prior_states) {
+            let mut m0 = Model::default();
+            for op in &prior {
+                op.apply(&mut m0);
+            }
+            for steps in tx_sequences(s, a, &c.q.picks, &m0, c.min_len, c.depth, c.full_alphabet) {
+                cases.push(Case::Tx { ci, prior: prior.clone(), steps });
+            }
+        }
+        tx_case_counts.push(cases.len() - before);
+    }
+    // development aid: `--only set|cud|tx` runs one family (never exhaustive, triggers not required)
+    let only = args.extra.get("only").cloned();
+    if let Some(o) = &only {
+        cases.retain(|c| matches!((c, o.as_str()), (Case::Set { .. }, "set") | (Case::Cud { .. }, "cud") | (Case::Tx { .. }, "tx")));
+    }
     rep.set("cases", cases.len() as u64);
 
     // ---- run
@@ -934,6 +1440,13 @@ pub fn run(args: &Args) {
                             w.rep.sample(json!({"schema": s.name, "history": hist.iter().map(Op::show).collect::<Vec<_>>()}));
                         }
                     }
+                    Case::Tx { ci, prior, steps } => {
+                        let c = &txcfgs[*ci];
+                        w.tx_case(c.si, &ss[c.si], prior, steps, &c.q, &c.lits);
+                        if steps.len() == 3 && !prior.is_empty() && w.rep.counter("tx_actions") % 157 == 1 {
+                            w.rep.sample(json!({"schema": ss[c.si].name, "committed_by_earlier_actions": prior.iter().map(Op::show).collect::<Vec<_>>(), "one_action_publishes": steps.iter().map(Op::show).collect::<Vec<_>>(), "observed": "scan after every step; every literal shape over the keys in use after the last step; listing and session scan after the commit"}));
+                        }
+                    }
                 }
             }
             (w.rep, w.bad, w.states)
@@ -950,7 +1463,7 @@ pub fn run(args: &Args) {
     rep.set("states", states.len() as u64);
     rep.set("traces_validated_against_impl", rep.counter("histories"));
     let skipped = rep.counter("cases_skipped_after_wall_cap");
-    rep.set("exhaustive", skipped == 0);
+    rep.set("exhaustive", skipped == 0 && only.is_none());
     if skipped > 0 {
         rep.set("cap_hit", format!("wall cap of {cap_s}s: {skipped} of {} histories were not run", cases.len()));
     }
@@ -963,12 +1476,30 @@ pub fn run(args: &Args) {
             "cud_depth": cud_depth,
             "cud_keys": cud_keys,
             "cud_operation_alphabet": cud_alphabet_sizes,
+            "multi_command_actions": txcfgs.iter().zip(&tx_case_counts).map(|(c, n)| json!({
+                "schema": ss[c.si].name,
+                "keys": c.q.picks.iter().map(|k| k.iter().map(Atom::show).collect::<Vec<_>>().join(",")).collect::<Vec<_>>(),
+                "never_stored_query_key": c.q.qkeys.iter().find(|k| !c.q.picks.contains(k)).map(|k| k.iter().map(Atom::show).collect::<Vec<_>>().join(",")),
+                "query_prefixes": c.q.qprefixes.iter().flatten().map(|k| k.iter().map(Atom::show).collect::<Vec<_>>().join(",")).collect::<Vec<_>>(),
+                "states_per_key_in_committed_prior": if c.prior_states == 3 { "never created | committed | created and deleted again" } else { "never created | committed" },
+                "committed_priors": c.prior_states.pow(c.q.picks.len() as u32),
+                "steps_per_action": [c.min_len, c.depth],
+                "step_alphabet": if c.full_alphabet { "create, delete, 3-4 update forms, create;update, create;delete, delete;create, update;delete" } else { "create, delete, update(old values bound)" },
+                "literals_after_last_step": c.lits.len(),
+                "actions": n,
+            })).collect::<Vec<_>>(),
         }),
     );
+    let tx_rule = tx_bounds
+        .iter()
+        .map(|(k, st, lo, hi, f)| format!("{k} keys each {} × {lo}..={hi} steps × {} step alphabet", if *st == 3 { "never created/committed/created and deleted again" } else { "never created/committed" }, if *f { "full" } else { "create/delete/update" }))
+        .collect::<Vec<_>>()
+        .join("; ");
     rep.set(
         "rule",
-        "state = history of fact-changing commands replayed on a fresh graph of a real ClientState/VmPolicy/MemStorageProvider; (a) every fact set of ≤3 facts over the boundary key alphabets × 2 value variants, created one command per fact in descending key order (thorough: every insertion order), then every literal of every shape (bound keys and bound values drawn from the alphabets) evaluated as query/exists/count_up_to/at_least/at_most/exactly 1..3 in a command policy and in its action and as map, in a session and (first variant) on-graph; (b) every valid sequence of ≤3 create/update/delete commands (4 update literal forms, 5 two-statement finish blocks) with the raw fact listing compared after each command; states = distinct (schema, model store) reached, transitions = fact-changing commands executed",
+        format!("state = history of fact-changing commands replayed on a fresh graph of a real ClientState/VmPolicy/MemStorageProvider; (a) every fact set of ≤3 facts over the boundary key alphabets × 2 value variants, created one command per fact in descending key order (thorough: every insertion order), then every literal of every shape (bound keys and bound values drawn from the alphabets) evaluated as query/exists/count_up_to/at_least/at_most/exactly 1..3 in a command policy and in its action and as map, in a session and (first variant) on-graph; (b) every valid sequence of ≤3 create/update/delete commands (4 update literal forms, 5 two-statement finish blocks) with the raw fact listing compared after each command; (c) multi-command actions [{tx_rule}]: on every committed prior over the keys (built one command per action) every valid sequence of create/delete/update commands published by ONE action, i.e. inside one uncommitted perspective over the committed fact index: the same action scans the schema (all query kinds + map) after every step and evaluates every literal shape bound to the keys, a never-stored key and the key prefixes in use after the last step; raw listing and a session scan after the commit; states = distinct (schema, model store) reached, transitions = fact-changing commands executed"),
     );
+    rep.assume("Multi-command actions: the observations made inside the action are the effects of observation commands published by that same action between and after the fact-changing commands; they are compared with the model store as it stands after the steps published so far.");
     rep.assume("Only the statement's preconditions are explored: create on an absent key, update/delete on a present key. Merges (braids) of concurrent fact changes are other properties (C03, C12).");
     for c in [
         "histories",
@@ -983,8 +1514,24 @@ pub fn run(args: &Args) {
         "histories_with_update",
         "histories_with_delete",
         "listings_compared",
+        "tx_actions",
+        "tx_actions_on_nonempty_committed_store",
+        "tx_actions_with_2_or_more_fact_changing_commands",
+        "tx_literals_evaluated",
+        "tx_prefix_queries_matching_2_or_more",
+        "tx_delete_of_committed_fact",
+        "tx_delete_of_own_created_fact",
+        "tx_recreate_after_delete_in_same_action",
+        "tx_update_after_delete_and_recreate_in_same_action",
+        "tx_update_of_committed_fact",
+        "tx_update_of_own_created_fact",
+        "tx_deleted_key_sorts_before_remaining_facts",
+        "tx_deleted_key_sorts_between_remaining_facts",
+        "tx_deleted_key_sorts_after_remaining_facts",
     ] {
-        rep.require_nonzero(c);
+        if only.is_none() {
+            rep.require_nonzero(c);
+        }
     }
     rep.finish()
 }
